@@ -285,7 +285,8 @@ def mutate(g, m0):
             else: P[0][1] = P[1][1] + g.choice([0.0, 0.5]); d['implicit'] = False
         elif op == 'spline_two_args': sp['args'] = sp['args'] + [single({'t': 'inst', 'label': 'as.zero', 'params': []})]
         elif op == 'spline_bad_type': P[1][2] = {'t': 'inst', 'label': 'as.zero', 'params': []}
-        elif op == 'spline_mid_modifier': P[1][2] = {'t': 'mod', 'name': 'sum', 'args': [single({'t': 'inst', 'label': 'as.zero', 'params': []})]}
+        elif op == 'spline_mid_modifier': P[1][2] = {'t': 'mod', 'name': g.choice(['sum', 'exp_spline', 'buck4_spline']),   # also a modifier NAMED like a spline type
+                                                           'args': [single({'t': 'inst', 'label': 'as.zero', 'params': []})]}
     m['mutation'] = op
     return m
 
@@ -482,6 +483,11 @@ def corpus():
     out.append({'model': sp, 'expect': 'Ok'})
     for op_rmin in (2.0, 1.0, 2.5):
         m = copy.deepcopy(sp); m['pair'][0]['defn']['parts'][0][2]['args'][0]['parts'][1][2]['params'] = [op_rmin]; m['mutation'] = 'rmin_outside'
+        out.append({'model': m, 'expect': 'CfgErr'})
+    # the middle part spelled as a modifier, also one NAMED like a spline type: exp_spline(as.zero), buck4_spline(as.zero), sum(as.zero)
+    for name in ('exp_spline', 'buck4_spline', 'sum'):
+        m = copy.deepcopy(sp); m['pair'][0]['defn']['parts'][0][2]['args'][0]['parts'][1][2] = {'t': 'mod', 'name': name, 'args': [single({'t': 'inst', 'label': 'as.zero', 'params': []})]}
+        m['mutation'] = 'spline_mid_modifier'
         out.append({'model': m, 'expect': 'CfgErr'})
     return out
 
